@@ -341,9 +341,10 @@ def include_bytes_path_cases(asm, rep, rnd, tier):
             for k, f in enumerate(files):
                 os.makedirs(os.path.dirname(f), exist_ok=True)
                 open(f, 'wb').write(bytes([k * 16 + 1 + (j % 13) for j in range(size)]))
-            name = rnd.choice(['assets/../data.bin', 'sub/../data.bin', './data.bin', 'assets/x.bin', 'sub/./y.bin', 'sub//y.bin',
+            names = ['assets/../data.bin', 'sub/../data.bin', './data.bin', 'assets/x.bin', 'sub/./y.bin', 'sub//y.bin',
                                '../shared/data.bin', '../data.bin', 'assets/../assets/x.bin', os.path.join(shared, 'data.bin'),
-                               'assets/../../src/data.bin', './.hidden.bin', './../shared/data.bin', './/data.bin', '.hidden.bin'])
+                               'assets/../../src/data.bin', './.hidden.bin', './../shared/data.bin', './/data.bin', '.hidden.bin']
+            name = names[i % len(names)] if i < len(names) else rnd.choice(names)      # every spelling at least once
             main = os.path.join(src_dir, 'main.asm')
             open(main, 'w').write('include_bytes %s\n' % name)
             exp = None
